@@ -76,6 +76,7 @@ struct call_ctx
     bool dists = false;      // run the integrand with one distribution (the other accumulator specialisation)
     int vexp = 0;            // all integrand values are multiplied by 2^vexp (to reach the subnormal range)
     int jac_pow = 0;
+    bool jac_neg = false;    // multi channel: the map reverses the orientation for odd channels (negative jacobian, negative weights)
     bool reload = false;     // VEGAS: the (zero-result) checkpoint goes through its text form before the first iteration
     std::size_t md = 0;      // multi channel: number of coordinates (map dimensions) if different from the number of random numbers
 
@@ -111,7 +112,7 @@ struct traced_map
             // a map may fill the densities already now (the documentation allows it): leave a recognisable pattern
             for (std::size_t i = 0; i != de.size(); ++i) de[i] = T(7 + (long) i) + rn[0];
             if (c->log_calls) ev("MapCoordDone").i("csum", ids().id("c:" + hexvec(co))).i("dsum", ids().id("d:" + hexvec(de))).emit();
-            return T(1);
+            return T(-3); // (the return value of this call is documented as ignored)
         }
         if (c->log_calls)
             ev("MapDens").i("self", addr_id(this)).i("ch", (long long) ch).i("rn", ids().id(hexvec(rn))).i("caddr", addr_id(&co))
@@ -131,7 +132,8 @@ struct traced_map
         // (the densities are asked for while the integrand of this call is still running - it requested the weight - so spec() is this call's)
         if (c->spec().wreq && c->spec().dz) for (std::size_t i = 0; i != n; ++i) de[i] = T();
         c->last_dens = de;
-        return std::ldexp(T(1), c->jac_pow); // common jacobian factor
+        T const jac = std::ldexp(T(1), c->jac_pow); // common jacobian factor
+        return (c->jac_neg && ch % 2 == 1) ? -jac : jac;
     }
 };
 
